@@ -180,6 +180,11 @@ func fixedScenarios() []fixed {
 	mk("dial-reverse-to-from", func(sc *scenario) { sc.ReverseEnv = true })
 	mk("accept-early-data", func(sc *scenario) { sc.Seg = "whole"; sc.Mode = "accept"; sc.EarlyData = 5 })
 	mk("register-reply-lowercase-x", func(sc *scenario) { sc.RegX = true })
+	mk("data-frames-with-other-pids", func(sc *scenario) { sc.VaryPID = true })
+	mk("data-frames-with-other-pids-accept-tcp", func(sc *scenario) {
+		sc.Link, sc.Seg, sc.Mode, sc.VaryPID = "tcp", "cut30", "accept", true
+		sc.End = "app-close"
+	})
 	mk("version", func(sc *scenario) { sc.Version = true })
 	mk("dial-refused", func(sc *scenario) { sc.Dial = "refuse" })
 	// endings
@@ -352,6 +357,7 @@ func randomStream(seed int64, i int) scenario {
 	sc.MaxFrame = vrt.Pick(r, []int{1, 2, 4, 7, 1, 2, 4, 7, 0, 255, 3, 127}) // the TNC reports one byte: any value can come back
 	sc.TTLMax = vrt.Pick(r, []int{1, 1, 1, 2, 2, 3})
 	sc.RegX = r.Intn(10) == 0
+	sc.VaryPID = sc.Seed%5 == 2
 	sc.RBuf = vrt.Pick(r, []int{1, 7, 64, 300, 4096})
 	sc.ReadDelayUs = vrt.Pick(r, []int{0, 0, 0, 50, 300})
 	sc.NoisePct = vrt.Pick(r, []int{0, 20, 60})
